@@ -75,7 +75,7 @@ def resLines (r : Res) : List String :=
 
 def step (ns : List NodeSt) (toks : List String) : List NodeSt × List String :=
   match toks with
-  | ["m14.new", sec, hp, delta] =>
+  | ["m14.new", sec, hp, delta, _own] =>
     match sec.toNat?, hp.toNat?, delta.toNat? with
     | some sec, some hp, some delta =>
       let b := sec != 0
